@@ -61,7 +61,7 @@ class C06(Check):
         "tankIntegralOk / tankLimitsOk / limitFlowOk are evaluated by the Lean driver on the real results.",
         design_ref="DESIGN.md §5 C06, §4 M7",
         note="modelled, not verified: IEEE rounding (Rat model, 1e-9 relative comparison), numpy.interp (transliterated with its clamping, "
-        "checked on every observed call), the hydraulic solve (net inflow is whatever the real solver reported), leaks at tanks are not generated",
+        "checked on every observed call), the hydraulic solve (link flows and leak_demand are whatever the real solver reported; the leak law itself is C08's)",
         technique="Lean 4 proof over hand-written model + differential run (in-process wrapping) + Lean-evaluated oracles on real results",
     )
     rule = (
@@ -77,7 +77,7 @@ class C06(Check):
     assumptions = [
         "volume curves are strictly increasing in level and volume (what add_curve/add_tank accept in practice; theorems state it)",
         "the tentative volume stays inside the volume curve (the _partial theorems; violated by the recorded known finding)",
-        "tanks without leaks; runs that converge (rows saved before a non-converged step are judged)",
+        "limits / no-discharge are not judged for a tank with a leak defined (the integral identity is); runs that converge (rows saved before a non-converged step are judged)",
     ]
 
     def translate(self, ctx):
@@ -308,6 +308,32 @@ class C06(Check):
                                         {"spec": spec, "tank": tn, "oracle": "tankIntegralOk", "pair": [a, b], "tank_params": p}))
 
             B.ask("integral %d %s %s" % (tid, F(RTOL), F(ATOL)), cb_int)
+            # the same identity with the leak explicit: reported demand = (sum inlet flows - sum outlet flows) - leak_demand and
+            # dV = (link net inflow - leak_demand) * dt  (qtol: the solver's flow-balance tolerance at the tank)
+            inl = [ln for ln in wn.get_links_for_node(tn, "ALL") if wn.get_link(ln).end_node_name == tn]
+            outl = [ln for ln in wn.get_links_for_node(tn, "ALL") if wn.get_link(ln).start_node_name == tn]
+            rl = [(r["t"], r["tanks"][tn][0], r["tanks"][tn][1], r["leak"][tn][0],
+                   sum(r["flow"][ln] for ln in inl) - sum(r["flow"][ln] for ln in outl)) for r in tr.rows]
+            has_leak = bool(tspec.get("leak"))
+            if has_leak:
+                ctx.count("oracle-tank:leak:" + spec["options"].get("demand_model", "DD"))
+                ctx.count("leak-active-rows", sum(1 for r in tr.rows if r["leak"][tn][1]))
+            B.ask("rowsl %d %d %s" % (tid, len(rl), " ".join("%s %s %s %s %s" % tuple(F(x) for x in row) for row in rl)))
+
+            def cb_intl(ans, rl=rl, p=p, tn=tn, has_leak=has_leak):
+                if ans == "ok":
+                    return
+                i = int(ans.split()[1])
+                a, b = rl[i], rl[i + 1]
+                failures.append(Failure("integral-leak" if has_leak else "integral-balance",
+                                        "tank %s: between t=%s and t=%s the stored volume must change by (link net inflow %.6g - leak %.6g) x dt = %.6g m3 "
+                                        "and the reported demand must be that net inflow; reported demand %.6g, level %.6f -> %.6f"
+                                        % (tn, a[0], b[0], a[4], a[3], (a[4] - a[3]) * (b[0] - a[0]), a[2], a[1] - p["elev"], b[1] - p["elev"]),
+                                        {"spec": spec, "tank": tn, "oracle": "integralOkPairLeak", "pair": [a, b], "tank_params": p}))
+
+            B.ask("integrall %d %s %s %s" % (tid, F(RTOL), F(ATOL), F(1e-6)), cb_intl)
+            if has_leak:
+                continue  # a leaking tank may legitimately pass min_level and "discharges" through the leak: limits are not judged
 
             def cb_lim(ans, rows=rows, p=p, tn=tn, kindname=kindname, classify=classify):
                 if ans == "ok":
@@ -373,6 +399,8 @@ class C06(Check):
         for fn, item in vlib.corpus_items("C06"):
             specs.append(("corpus/" + fn, item["spec"]))
         specs.append(("designed/volcurve-clamp", K.volcurve_clamp_spec()))
+        specs.append(("designed/tank-leak-DD", K.tank_leak_spec("DD")))
+        specs.append(("designed/tank-leak-PDD", K.tank_leak_spec("PDD")))
         specs.append(("designed/valve-user-open", K.valve_user_open_spec()))
         specs.append(("designed/pump-reverse", K.pump_reverse_spec()))
         specs.append(("designed/head-tie", K.head_tie_spec()))
@@ -387,6 +415,8 @@ class C06(Check):
                 force["tank_kind"] = "cyl"
             if i % 4 == 3:
                 force["tank_kind"] = ctx.rng.choice(["curve-wide", "curve-tight"])
+            if i % 3 == 2:
+                force["leaks"] = True
             specs.append(("seed%d/net%d" % (ctx.seed, i), K.random_network(ctx.rng, ctx.quick, force)))
         for k, (label, spec) in enumerate(specs):
             tr = self._network(ctx, B, spec, label, failures, broken, grid_check=(k % 3 == 0))
